@@ -74,7 +74,32 @@ let run_kind (read : Machine.mode -> n list -> TexCommon.texture list Machine.ou
   let w = one Machine.Wrapping in
   if c = w then c else c ^ " || " ^ w
 
-let () = register "ctpk" (run_kind Ctpk.read_ctpk TexFormat.conforms_ctpkb)
-let () = register "bch" (run_kind Bch.read_bch TexFormat.conforms_bchb)
+(* `f32 <fmt> <w> <h>`: the reader asks for payload_size32 bytes; the file holds payload_size + d bytes, d = -2..2
+   (formats 10 / 11: the decoder never reads the data, so the outcome is decided by read_exact alone; see h_tex.rs) *)
+let f32_probe (toks : string list) : string =
+  match toks with
+  | [fmt; w; h] when fmt = "10" || fmt = "11" ->
+    let (fmt, w, h) = (n_of_dec fmt, n_of_dec w, n_of_dec h) in
+    let r = int_of_n (TexCommon.payload_size32 fmt w h) in
+    let t = int_of_n (Pixel.payload_size fmt w h) in
+    String.concat "" (List.map (fun d -> if r <= max 0 (t + d) then "O" else "E") [-2; -1; 0; 1; 2])
+  | _ -> "unmodelled"
+let with_f32 (f : string list -> string) (toks : string list) : string =
+  match toks with "f32" :: rest -> f32_probe rest | _ -> f toks
+
+(* A-codec table check: bitmap of sjis_encoded over all single bytes and all two-byte strings (see k_ctpk.rs) *)
+let codec_bitmap () : string =
+  let b = Buffer.create 17000 in
+  let cur = ref 0 and cnt = ref 0 in
+  let push (x : bool) =
+    cur := (!cur lsl 1) lor (if x then 1 else 0); incr cnt;
+    if !cnt = 4 then (Buffer.add_string b (Printf.sprintf "%x" !cur); cur := 0; cnt := 0) in
+  for x = 0 to 255 do push (TexCommon.sjis_encoded [n_of_int x]) done;
+  for l = 0 to 255 do for t = 0 to 255 do push (TexCommon.sjis_encoded [n_of_int l; n_of_int t]) done done;
+  Buffer.contents b
+
+let () = register "ctpk" (fun toks -> match toks with ["codec"] -> codec_bitmap () | "f32" :: rest -> f32_probe rest
+                                          | _ -> run_kind Ctpk.read_ctpk TexFormat.conforms_ctpkb toks)
+let () = register "bch" (with_f32 (run_kind Bch.read_bch TexFormat.conforms_bchb))
 let () = register "cgfx" (run_kind Cgfx.read_cgfx TexFormat.conforms_cgfxb)
 let () = register "tpl" (run_kind Tpl.read_tpl TexFormat.conforms_tplb)
